@@ -70,6 +70,8 @@ package store
 //@ func (r *LayerManager) getLayer$1
 //@   props C16
 //@   requires r != nil && resultChan != nil
+// (construction invariant of NewLayerManager, needed by resolveLayer; listed as an assumption)
+//@   requires r.resolver != nil && r.resolveLock != nil && r.metricsController != nil && r.backgroundTaskManager != nil
 //@   ensures[C16] forall c ref :: c != ref(resultChan) ==> sent(c) == old(sent(c))
 
 // ---- C01 (store flavour): a layer is exposed under <ref>/<digest>/ only after it was verified against that digest ----
